@@ -82,7 +82,9 @@ def plan_cases(tier, quick_total, thorough_total, shards_quick=16, shards_thorou
     if tier == "quick":
         n, k = quick_total, shards_quick
     else:
-        n, k = thorough_total, shards_thorough
+        # the thorough tier is 12x the quick tier (more with --scale / VERIF_SCALE): deep enough to reach rarer
+        # shapes, shallow enough that every run on the unchanged tree was actually made and triaged
+        n, k = min(thorough_total, 12 * quick_total), shards_thorough
     per = max(5, int(n * scale / k))
     return [dict(cases=per, **extra) for _ in range(k)]
 
